@@ -174,7 +174,8 @@ class TreeSim(WorldBase):
     def kinds_ok(self, sl, level, f, osl, olevel, of):
         """both sub-trees use the same kind of coordinate (int, or tuples of one arity) level by level"""
         def kind(c):
-            return ("t", len(c)) if isinstance(c, tuple) else "i"
+            # the nesting structure of a coordinate: int, (int, int), (int, (int, int)), ...
+            return tuple(kind(x) for x in c) if isinstance(c, (tuple, list)) else "i"
 
         def walk(x, y):
             if not isinstance(x, Fiber) or not isinstance(y, Fiber):
@@ -188,7 +189,7 @@ class TreeSim(WorldBase):
             return all(walk(p, q) for p in xs for q in ys)
         for dz, da in zip(range(level, sl.depth), range(olevel, osl.depth)):
             kz, ka = sl.shape[dz], osl.shape[da]
-            if isinstance(kz, int) != isinstance(ka, int) or (not isinstance(kz, int) and len(kz) != len(ka)):
+            if (kind(kz) if not isinstance(kz, int) else "i") != (kind(ka) if not isinstance(ka, int) else "i"):
                 return False
         return walk(f, of)
 
@@ -1048,6 +1049,9 @@ class TreeSim(WorldBase):
                 self.tasks.pop(tid)
                 raise Skip("U needs int shape")
             lo, hi = af.getActive()
+            if not (isinstance(lo, int) and isinstance(hi, int)):
+                self.tasks.pop(tid)
+                raise Skip("U needs an integer active range")
             exp = list(range(lo, hi))
             self.probe("populate_U_source")
         else:
